@@ -8,7 +8,7 @@ for d in sorted(glob.glob('/verif/seeded/C*')):
         meta = json.load(open(d + '/meta.json')); det = json.load(open(d + '/detection.json'))
     except Exception:
         continue
-    summ = re.sub(r'\s+', ' ', meta.get('summary') or meta.get('what') or '')[:150].replace('|', '/')
+    summ = re.sub(r'\s+', ' ', meta.get('summary') or meta.get('what_it_breaks') or meta.get('what') or '')[:150].replace('|', '/')
     by, ob = 'missed', '-'
     for k, v in det['detection'].items():
         if v['exit'] == 1:
@@ -40,3 +40,22 @@ for f in hs:
     if r.get('false_alarm'): fa.append(r['seed'])
     if r.get('undecided'): und[r['seed']] = r['undecided']
 print('\nharmless edits by sub-agents: %d; false alarms: %s; undecided (exit 2) checks: %s' % (len(hs), fa or 'none', json.dumps(und) if und else 'none'))
+
+# --update: write the table between the markers of DESIGN.md
+import sys
+if '--update' in sys.argv:
+    import io, contextlib
+    p = '/verif/DESIGN.md'
+    s = open(p).read()
+    a = s.index('<!-- seedtable:begin -->') + len('<!-- seedtable:begin -->\n')
+    b = s.index('<!-- seedtable:end -->')
+    buf = io.StringIO()
+    with contextlib.redirect_stdout(buf):
+        print('| seed | property | change (short) | caught by | failing obligation |')
+        print('|---|---|---|---|---|')
+        for r in rows:
+            print('| %s | %s | %s | %s | `%s` |' % r)
+        print('\n%d breaking seeds: %d caught in the quick tier, %d in the thorough tier, %d not caught.' % (n, q, t, m))
+        print('\nBehaviour-preserving refactorings by sub-agents: %d; false alarms: %s; checks ending undecided (exit 2): %s.' % (
+            len(hs), ', '.join(fa) if fa else 'none', '; '.join('%s (%s)' % (k, ', '.join(sorted(set(x.split('/')[0] for x in v)))) for k, v in sorted(und.items())) if und else 'none'))
+    open(p, 'w').write(s[:a] + buf.getvalue() + s[b:])
